@@ -88,7 +88,7 @@ func runC20(c *Ctx, r *Report) {
 		r.Anchor("C20/locked", "util.Queue.{queue,depth,depthChan,lock}")
 		return
 	}
-	lockKey := "util.Queue.lock"
+	lockKey := "util.Queue." + fLock.Name()
 	var methods []*ssa.Function
 	roots := map[*ssa.Function]bool{}
 	calledInLib := map[*ssa.Function]bool{}
